@@ -2,6 +2,7 @@
    Core-only (no Mathlib / Batteries anywhere below), so it links as a native executable. -/
 import Driver.Util
 import Driver.C15
+import Driver.Codec
 
 partial def loop {σ : Type} (step : σ → String → σ × String) (hin hout : IO.FS.Stream) (s : σ) : IO Unit := do
   let line ← hin.getLine
@@ -17,4 +18,5 @@ def main (args : List String) : IO UInt32 := do
   let hout ← IO.getStdout
   match args with
   | ["c15"] => loop Drv.C15.step hin hout (); hout.flush; return 0
+  | ["codec"] => loop Drv.Codec.step hin hout (); hout.flush; return 0
   | _ => IO.eprintln "usage: zvdriver <proto>"; return 2
